@@ -35,6 +35,8 @@ type Config struct {
 	// Overlay replaces the content of source files (absolute path -> content);
 	// used by the mutation tool to analyse a variant without copying the tree.
 	Overlay map[string][]byte
+	// NoNormalise switches the source normalisation (inlining of helpers outside the vocabulary) off.
+	NoNormalise bool
 }
 
 // Prog is the loaded, type-checked program plus its SSA form.
@@ -50,6 +52,10 @@ type Prog struct {
 	AllFuncs map[*ssa.Function]bool
 	// fileOf maps token.File names to absolute path (for subject decisions).
 	excluded []string
+
+	// Norm is what the source normalisation did (nil: nothing).
+	Norm    *NormResult
+	dropped map[*ssa.Function]bool
 
 	implCache map[string][]*ssa.Function
 	cg        *callgraph.Graph
@@ -68,6 +74,17 @@ func Load(cfg Config) (*Prog, error) {
 		"GOFLAGS=-mod=mod", "GOPROXY=off", "GOSUMDB=off", "GOTOOLCHAIN=local", "GOWORK=off")
 	if cfg.GOARCH != "" {
 		env = append(env, "GOARCH="+cfg.GOARCH, "CGO_ENABLED=0")
+	}
+	var norm *NormResult
+	if !cfg.NoNormalise {
+		nr, nerr := Normalise(cfg, EmbeddedVocab())
+		if nerr != nil {
+			return nil, nerr
+		}
+		if nr != nil {
+			norm = nr
+			cfg.Overlay = nr.Overlay
+		}
 	}
 	pc := &packages.Config{
 		Mode:  packages.LoadAllSyntax,
@@ -123,6 +140,35 @@ func Load(cfg Config) (*Prog, error) {
 		}
 	}
 	p.AllFuncs = ssautil.AllFunctions(prog)
+	p.Norm = norm
+	p.dropped = map[*ssa.Function]bool{}
+	if norm != nil && len(norm.Dropped) > 0 {
+		for fn := range p.AllFuncs {
+			root := fn
+			for root.Parent() != nil {
+				root = root.Parent()
+			}
+			if root.Pkg == nil || root.Object() == nil {
+				continue
+			}
+			name := root.Name()
+			if recv := root.Signature.Recv(); recv != nil {
+				t := recv.Type()
+				if pt, ok := t.(*types.Pointer); ok {
+					t = pt.Elem()
+				}
+				if nt, ok := t.(*types.Named); ok {
+					name = nt.Obj().Name() + "." + name
+				}
+			}
+			if norm.Dropped[root.Pkg.Pkg.Path()+"."+name] {
+				p.dropped[fn] = true
+			}
+		}
+		for fn := range p.dropped {
+			delete(p.AllFuncs, fn)
+		}
+	}
 	return p, nil
 }
 
@@ -254,6 +300,9 @@ func (p *Prog) IsSubject(fn *ssa.Function) bool {
 	}
 	if root.Origin() != nil {
 		root = root.Origin()
+	}
+	if p.dropped[root] {
+		return false // a helper outside the vocabulary whose every call has been inlined
 	}
 	var pkgPath string
 	if root.Pkg != nil {
